@@ -17,7 +17,7 @@ def harness_args(run, tier, n, cases):
 
 PROP = {
     "id": "C18",
-    "tie2": ["Tie2Secs1"],
+    "tie2": ["Tie2Secs1", "Tie2Secs1Asm"],
     "harness": "c18",
     "driver": "c18",
     "n_quick": 3000,
